@@ -1530,6 +1530,11 @@ impl ProtocolState {
             return None;
         }
 
+        // a partially encoded operation continues as soon as the previous chunk has been flushed
+        if self.current_operation.is_some() {
+            return Some(self.current_time);
+        }
+
         if !self.high_priority_operation_queue.is_empty() {
             return Some(self.current_time);
         }
